@@ -338,6 +338,10 @@ func (s *Service) onHealth(w http.ResponseWriter, r *http.Request) {
 
 // Occurs when a message is received from a peer.
 func (s *Service) onPeerMessage(m *message.Message) {
+	if len(m.ID) < 20 {
+		return // Malformed id without a contract, nothing to deliver to
+	}
+
 	defer s.measurer.MeasureElapsed("peer.msg", time.Now())
 	size, n := len(m.Payload), 0
 	filter := func(s message.Subscriber) bool {
